@@ -33,8 +33,11 @@ structure Uni where
   digit : Char → Bool := fun _ => false
   word : Char → Bool := fun _ => false
 
-def isAsciiDigit (c : Char) : Bool := '0' ≤ c && c ≤ '9'
-def isAsciiLetter (c : Char) : Bool := ('a' ≤ c && c ≤ 'z') || ('A' ≤ c && c ≤ 'Z')
+def asciiDigits : List Char := "0123456789".toList
+def asciiLetters : List Char := "abcdefghijklmnopqrstuvwxyzABCDEFGHIJKLMNOPQRSTUVWXYZ".toList
+def hexLetters : List Char := "abcdefABCDEF".toList
+def isAsciiDigit (c : Char) : Bool := asciiDigits.contains c
+def isAsciiLetter (c : Char) : Bool := asciiLetters.contains c
 
 /-- `\d` -/
 def Uni.isD (u : Uni) (c : Char) : Bool := if c.val < 128 then isAsciiDigit c else u.digit c
@@ -42,8 +45,7 @@ def Uni.isD (u : Uni) (c : Char) : Bool := if c.val < 128 then isAsciiDigit c el
 def Uni.isW (u : Uni) (c : Char) : Bool :=
   if c.val < 128 then isAsciiDigit c || isAsciiLetter c || c == '_' else (u.word c || u.digit c)
 /-- `[\da-fA-F]` -/
-def Uni.isH (u : Uni) (c : Char) : Bool :=
-  u.isD c || ('a' ≤ c && c ≤ 'f') || ('A' ≤ c && c ≤ 'F')
+def Uni.isH (u : Uni) (c : Char) : Bool := u.isD c || hexLetters.contains c
 
 def isOctal (c : Char) : Bool := Generated.octalDigits.toList.contains c
 def isHexDigit (c : Char) : Bool := Generated.hexadecimalDigits.toList.contains c
@@ -376,21 +378,34 @@ def matchFloatFrac (u : Uni) (src : List Char) : Option FloatMatch :=
     let e := matchExp isE u.isD (tailDec u) rest
     some ⟨.fractional, c, e, floatSuffix u (rest.drop e.length)⟩
 
+/-- `Constant` of the hexadecimal pattern after the `0[xX]+`:
+`(?:[\da-fA-F]+(?:\.[\da-fA-F]*)?|\.[\da-fA-F]+)`; returns the matched text and the rest -/
+def hexMantissa (u : Uni) (a1 : List Char) : Option (List Char × List Char) :=
+  match a1.takeWhile u.isH with
+  | [] =>
+    -- second alternative: `.` followed by at least one hex digit
+    match a1 with
+    | '.' :: r =>
+      match r.takeWhile u.isH with
+      | [] => none
+      | fs => some ('.' :: fs, r.drop fs.length)
+    | _ => none
+  | hs =>
+    match a1.dropWhile u.isH with
+    | '.' :: r => some (hs ++ '.' :: r.takeWhile u.isH, r.dropWhile u.isH)
+    | a2 => some (hs, a2)
+
 def matchFloatHex (u : Uni) (src : List Char) : Option FloatMatch :=
   match src with
   | '0' :: tl =>
-    let (xs, a1) := spanP (fun c => c == 'x' || c == 'X') tl
-    if xs.isEmpty then none else
-    let (hs, a2) := spanP u.isH a1
-    if hs.isEmpty then none else
-    let (frac, a3) : List Char × List Char := match a2 with
-      | '.' :: r =>
-        let fs := r.takeWhile u.isH
-        if fs.isEmpty then ([], a2) else ('.' :: fs, r.drop fs.length)
-      | _ => ([], a2)
-    let c := '0' :: xs ++ hs ++ frac
-    let e := matchExp isP u.isH (tailHex u) a3
-    some ⟨.hexadecimal, c, e, floatSuffix u (a3.drop e.length)⟩
+    match tl.takeWhile (fun c => c == 'x' || c == 'X') with
+    | [] => none
+    | xs =>
+      match hexMantissa u (tl.dropWhile (fun c => c == 'x' || c == 'X')) with
+      | none => none
+      | some (mant, a3) =>
+        let e := matchExp isP u.isH (tailHex u) a3
+        some ⟨.hexadecimal, '0' :: xs ++ mant, e, floatSuffix u (a3.drop e.length)⟩
   | _ => none
 
 /-- `str.strip(chars)` -/
@@ -492,6 +507,11 @@ def charLoop (line col : Nat) : Nat → LexSt → List Char → Nat → LexSt ×
       else if ch == ['\''] then (s1, v ++ ch, n)
       else charLoop line col fuel s1 (v ++ ch) (n + 1)
 
+def endsWithTwoQuotes (v : List Char) : Bool :=
+  match v.reverse with
+  | '\'' :: '\'' :: _ => true
+  | _ => false
+
 def parseChar : SubLex := fun s =>
   match quotePrefix '\'' s.rest Generated.quotePrefixes with
   | none => none
@@ -504,8 +524,8 @@ def parseChar : SubLex := fun s =>
       | (_, none) => none
       | (s2, some q) =>
         let (s3, v, chars) := charLoop s.line s.col (s2.rest.length + 1) s2 (pre ++ q) 0
-        let s4 := if v == ['\'', '\''] then
-            s3.addDiag (mkDiag "EMPTY_CHAR" .error [⟨s.line, s.col, some 2, none⟩]) else s3
+        let s4 := if chars == 0 && endsWithTwoQuotes v then
+            s3.addDiag (mkDiag "EMPTY_CHAR" .error [⟨s.line, s.col, some v.length, none⟩]) else s3
         let s5 := if chars > 1 && v.getLast? == some '\'' then
             s4.addDiag (mkDiag "CHAR_AS_STRING" .error
               [⟨s.line, s.col, some v.length, none⟩, ⟨s.line, s.col, some 1, some charAsStringHint⟩])
